@@ -33,15 +33,17 @@ def needs_f13_shift(pos_prev, pos_next):
 
 
 @st.composite
-def merge_case(draw, max_probes=4, exclude_f13=True, max_nc=6, max_ns=25):
+def merge_case(draw, max_probes=4, exclude_f13=True, max_nc=6, max_ns=25, big_templates=False):
     k = draw(st.sampled_from([1, 2, 2, 3, 3, 3, 4][:3 + max_probes]))
     k = min(k, max_probes)
     probes = []
     first = None
     excluded = 0
     for i in range(k):
+        big = big_templates and draw(st.integers(0, 7)) == 0
         spec = draw(D.dataset_spec(merge_ready=True, dense=True, naming='ks', raw=False,
-                                   max_nc=max_nc, max_nt=4, max_ns=max_ns))
+                                   max_nc=max_nc, max_nt=4, max_ns=max_ns,
+                                   min_nt=33 if big else 2, big_nt=70 if big else None))
         if first is None:
             first = spec
         else:
